@@ -67,6 +67,9 @@ def run(tier, replay=None):
     from . import parserules
     for which in ('core', 'dispatch', 'unicode', 'transform', 'private'):
         parserules.check(prog, rep, which)
+    # values built by the compile-time macros belong to this property's domain as well: the macro witnesses of C16 (cached per tree)
+    from . import c16
+    c16.witness_family(rep, tier)
     rep.explanation = ('The printed string is canonical because (a) the emission grammar of every Display impl equals the canonical grammar (order language/script/region/variants; t, u, x; '
                        'attributes before keywords; tlang before tfields; only the literals "-", "-u", "-t", "-x", "und"; each optional part iff present; every element; nothing when empty) - '
                        'decided by automaton equivalence on the MIR-derived emission automaton; (b) what is printed verbatim is canonical text: every validator accepts exactly its production and '
